@@ -2,7 +2,7 @@
     mode, to the end of its_list: _explicit_h raises on none of the glued ITS graphs (proof/C04_TotalAny.v) and keeps the
     folded reaction (proof/C04_Explicit.v). *)
 From Coq Require Import List NArith ZArith Bool Arith Lia Permutation SetoidList.
-From SK Require Import lib.Tok lib.LGraph lib.Mono model.C06_Model lib.C06_Spec.
+From SK Require Import lib.Tok lib.LGraph lib.Mono model.C06_Model lib.C06_Spec proof.C06_Comp.
 From SK Require Import model.C03_Model model.C04_Model model.C04_Reactor proof.C03_Proof proof.C03_Glue proof.C03_Spec
                        proof.C04_Glue proof.C04_Template proof.C04_Fold proof.C04_Default proof.C04_DefaultProof
                        proof.C04_Engine proof.C04_Object proof.C04_Chain proof.C04_Explicit proof.C04_DefaultEnd proof.C04_DefaultChain
@@ -128,3 +128,52 @@ Section OwnDefaultObject.
     exact (default_its_total (api_engine enum) rematch core invert G H W ME OK CC VAL (default_reactor_opts 2 T) rc l r ms y Tt eq_refl Er Em Hs Iy Eg Rg).
   Qed.
 End OwnDefaultObject.
+
+(** the same for ANY embed_threshold [thr] (None = the default 5000) that is not below C06's bound *)
+Section OwnDefaultAt.
+  Variable enum : list N -> list N -> list C06_Model.mapping.
+  Variable rematch : nat -> hostg -> molg -> list C03_Model.mapping.
+  Variables (core invert : bool) (G H : hostg) (thr : option N).
+  Hypothesis W : pair_wfb G H = true.
+  Hypothesis ME : mode_E G H = true.
+  Hypothesis OK : default_okb (if invert then H else G) (if invert then G else H) (template core invert G H) = true.
+  Hypothesis CC : core = true -> centre_carries (its_construct G H) = true.
+  Hypothesis VAL : own_valence_okb core invert G H = true.
+  Variables (rc : its) (l r : molg).
+  Hypothesis Er : rule_of core invert G H = Some (rc, l, r).
+  Let host := substrate invert G H.
+  Hypothesis Hor : oracle_ok enum (tr_host host) (tr_pat l).
+
+  Theorem own_comp_default_at :
+    (0 <? length (comps (tr_pat l)))%nat && (length (comps (tr_pat l)) <? length (comps (tr_host host)))%nat = false ->
+    ((length (comps (tr_host host)) <? length (comps (tr_pat l)))%nat = true \/ id_separatingb (tr_host host) (tr_pat l) = true) ->
+    (comp_bound enum true (tr_host host) (tr_pat l) <= dflt DEFAULT_THRESHOLD thr)%N ->
+    exists gs T', fst (read_its (api_engine enum) rematch (own_opts invert true (SMember 1%N) thr false) host (rc, l, r) fresh) = Some gs /\
+                  In T' gs /\ regen_folded T' (if invert then H else G) (if invert then G else H) = true.
+  Proof.
+    intros NG Hc Hb. destruct (default_facts core invert G H W ME OK CC rc l r Er) as (PW' & D' & LO & Hf).
+    pose proof (default_pattern_nonneg core invert G H rc l r W ME OK CC Er) as Hnn.
+    pose proof (default_gwf_host core invert G H W OK) as GH. pose proof (gwf_tr_pat_describes _ _ rc l D' LO) as GP.
+    destruct (comp_regenerates_at enum _ _ rc l r PW' D' LO Hf Hnn GH GP Hor (own_opts invert true (SMember 1%N) thr false) NG)
+      as (ms & y & Tt & Em & Hs & Iy & Eg & Rg); [|reflexivity|reflexivity|exact Hb|].
+    { destruct Hc as [Hc|Hc]; [left; exact Hc|right]. rewrite <- tr_pat_ids.
+      exact (id_separatingb_sound _ _ GH GP (default_pat_in_host core invert G H W ME OK CC rc l r Er) Hc). }
+    exact (default_its_total (api_engine enum) rematch core invert G H W ME OK CC VAL (own_opts invert true (SMember 1%N) thr false) rc l r ms y Tt eq_refl Er Em Hs Iy Eg Rg).
+  Qed.
+  Theorem own_bt_default_at :
+    ((0 <? length (comps (tr_pat l)))%nat && (length (comps (tr_pat l)) <? length (comps (tr_host host)))%nat = true \/
+     (length (comps (tr_host host)) <? length (comps (tr_pat l)))%nat = true \/ id_separatingb (tr_host host) (tr_pat l) = true) ->
+    (N.max (comp_bound enum true (tr_host host) (tr_pat l)) (lenN (enum (node_ids (tr_host host)) (node_ids (tr_pat l)))) <= dflt DEFAULT_THRESHOLD thr)%N ->
+    exists gs T', fst (read_its (api_engine enum) rematch (own_opts invert true (SMember 2%N) thr false) host (rc, l, r) fresh) = Some gs /\
+                  In T' gs /\ regen_folded T' (if invert then H else G) (if invert then G else H) = true.
+  Proof.
+    intros Hc Hb. destruct (default_facts core invert G H W ME OK CC rc l r Er) as (PW' & D' & LO & Hf).
+    pose proof (default_pattern_nonneg core invert G H rc l r W ME OK CC Er) as Hnn.
+    pose proof (default_gwf_host core invert G H W OK) as GH. pose proof (gwf_tr_pat_describes _ _ rc l D' LO) as GP.
+    destruct (bt_regenerates_at enum _ _ rc l r PW' D' LO Hf Hnn GH GP Hor (own_opts invert true (SMember 2%N) thr false))
+      as (ms & y & Tt & Em & Hs & Iy & Eg & Rg); [|reflexivity|reflexivity|exact Hb|].
+    { destruct Hc as [Hc|[Hc|Hc]]; [left; exact Hc|right; left; exact Hc|right; right]. rewrite <- tr_pat_ids.
+      exact (id_separatingb_sound _ _ GH GP (default_pat_in_host core invert G H W ME OK CC rc l r Er) Hc). }
+    exact (default_its_total (api_engine enum) rematch core invert G H W ME OK CC VAL (own_opts invert true (SMember 2%N) thr false) rc l r ms y Tt eq_refl Er Em Hs Iy Eg Rg).
+  Qed.
+End OwnDefaultAt.
